@@ -1,13 +1,17 @@
 #!/bin/sh
 # Sensitivity selftest: every seeded change must be caught by the quick check of the property it breaks.
-# Applies each patch to /repo's working tree in turn (never run together with `vp check` / `vp run`).
+# Default: each change is applied in its own scratch worktree of /repo HEAD (--worktree), LANES evaluations at a
+# time (default 3), so /repo itself is never touched. SEEDED_EVAL_FLAGS= (empty) selects the procedure of the brief
+# instead (apply to /repo's working tree, run, undo; one at a time; never together with `vp check` / `vp run`).
+# usage: tools/seeded_all.sh [regex over ids]        e.g. tools/seeded_all.sh '^C09-'
 cd "$(dirname "$0")/.."
-ok=0; miss=0
-for d in seeded/*/; do
-    id=$(basename "$d")
-    [ -f "$d/patch.diff" ] || continue
-    out=$(./tools/seeded_eval.py "$id" ${SEEDED_EVAL_FLAGS:-} 2>&1)
-    if echo "$out" | grep -q "exit 1"; then ok=$((ok+1)); echo "caught  $id"; else miss=$((miss+1)); echo "MISSED  $id"; echo "$out" | head -5; fi
-done
-echo "seeded changes caught: $ok, missed: $miss"
-[ $miss -eq 0 ]
+FLAGS=${SEEDED_EVAL_FLAGS---worktree}
+LANES=${LANES:-3}
+[ -z "$FLAGS" ] && LANES=1
+PAT=${1:-.}
+LOG=$(mktemp /tmp/seeded_all.XXXXXX)
+ls seeded | grep -E "$PAT" | while read id; do [ -f "seeded/$id/patch.diff" ] && echo "$id"; done |
+  xargs -P "$LANES" -I{} sh -c 'id={}; if grep -q "\"obsolete\"" seeded/$id/meta.json; then echo "obsolete $id"; exit 0; fi; out=$(./tools/seeded_eval.py $id '"$FLAGS"' 2>&1); if echo "$out" | grep -q "exit 1"; then echo "caught  $id"; else echo "MISSED  $id"; echo "$out" | grep -v conda | head -5; fi' | tee "$LOG"
+ok=$(grep -c '^caught' "$LOG"); miss=$(grep -c '^MISSED' "$LOG"); obs=$(grep -c '^obsolete' "$LOG"); rm -f "$LOG"
+echo "seeded changes caught: $ok, missed: $miss, obsolete: $obs"
+[ "$miss" -eq 0 ]
